@@ -323,6 +323,15 @@ class MethodUnit(Unit):
     def __init__(self):
         ci = CLASSES[self.spec.cls]
         self.modpath, self.clsqual = ci.source
+        if not self.is_setter:
+            # a method the class inherits is verified where it is defined (with `self` of the subclass)
+            todo = [ci]
+            while todo:
+                c = todo.pop(0)
+                if c.source and f"{c.source[1]}.{self.method}" in extract.module(c.source[0]).defs:
+                    self.modpath, self.clsqual = c.source
+                    break
+                todo.extend(CLASSES[b] for b in c.bases if b in CLASSES)
         q = f"{self.clsqual}.{self.method}" + (".setter" if self.is_setter else "")
         self.qualname = q
         self.name = q
@@ -581,14 +590,18 @@ class UnitResult:
         self.seconds = 0.0
 
 
-def explore(unit, max_paths=4000, prefix=()):
+def explore(unit, max_paths=4000, prefix=(), split=()):
     """enumerate the paths of a unit depth-first by re-execution.  `prefix` fixes the first decisions (used to spread
     the paths of a heavy unit over several processes: every combination of first decisions is explored by exactly one
-    job; a prefix that names a branch which does not exist yields no path)."""
+    job; a prefix that names a branch which does not exist yields no path).  `split` are the arities the jobs were
+    generated for: where the code has *more* branches at one of the first decisions than the split foresaw (it was
+    edited), the job that holds the last foreseen value there -- and zeros after it -- also explores the extra ones,
+    so no path is ever left out."""
     res = UnitResult(unit)
     t0 = time.time()
     prefix = list(prefix)
     decisions: list[int] = list(prefix)
+    owned = len(prefix)
     try:
         for modpath, q in unit.functions:
             res.functions.append({"file": modpath, "qualname": q, "sha256": extract.module(modpath).sha(q)})
@@ -605,14 +618,22 @@ def explore(unit, max_paths=4000, prefix=()):
             res.paths += 1
             res.obligations.extend(ctx.obls)
             d, n = ctx.decisions[: ctx.dpos], ctx.choices
-            i = len(d) - 1
-            while i >= 0 and d[i] + 1 >= n[i]:
-                i -= 1
-            if i < len(prefix):
-                if ctx.dpos < len(prefix) and prefix[ctx.dpos:] != [0] * (len(prefix) - ctx.dpos):
-                    res.paths -= 1  # a path shorter than the prefix is reported by the job whose remaining prefix is all zeros
-                    del res.obligations[len(res.obligations) - len(ctx.obls):]
+            if ctx.dpos < len(prefix) and prefix[ctx.dpos:] != [0] * (len(prefix) - ctx.dpos):
+                res.paths -= 1  # a path shorter than the prefix is reported by the job whose remaining prefix is all zeros
+                del res.obligations[len(res.obligations) - len(ctx.obls):]
                 break
+            i = len(d) - 1
+            while i >= 0:
+                if d[i] + 1 < n[i]:
+                    if i >= owned:
+                        break
+                    # inside the prefix: only the overflow beyond the foreseen arity, and only by one job
+                    if split and i < len(split) and d[i] >= split[i] - 1 and prefix[i + 1:] == [0] * (len(prefix) - i - 1):
+                        break
+                i -= 1
+            if i < 0:
+                break
+            owned = min(owned, i + 1)  # below an overflow branch every later decision is this job's
             decisions = d[:i] + [d[i] + 1]
             if res.paths >= max_paths:
                 raise Unsupported(f"more than {max_paths} paths")
